@@ -608,6 +608,8 @@ def run(ck: Check) -> None:
         "enum entries are scalar JSON values (lists/objects as entries are outside the model); floats are opaque repr tokens supplied by the harness",
         "repr(value) in find_member is a parameter of the model (supplied by the harness in the correspondence, universally quantified with one stated hypothesis in default_member_found_partial)",
         "JSON has one number type: with --use-subclass-enum and type number the oracle accepts 1 rendered as 1.0",
+        "__set_default_enum_member over a run: data_type.alias of each field is a parameter of the step (what __change_from_import left; C12/C02), one enum-typed data type per field; Member objects are heap cells (address = allocation order)",
+        "modular e2e family: modules that define an enum import each other in one direction only (defaults are evaluated at import time, mutually dependent modules cannot both be imported whatever the generator writes); module and class names come from a safe vocabulary (C12/C06/C07 own the naming)",
     ]
     campaign_parse(ck, 900 if quick else 9000)
     campaign_literal(ck, 300 if quick else 3000)
